@@ -194,6 +194,10 @@ func spkAdvs(rt *rapid.T, c *vw.ClusterSpec) {
 					a.Peers = append(a.Peers, p.Name)
 				}
 			}
+			// a name no configured peer carries (deleted peer, typo): the configuration layer tolerates it
+			if rapid.IntRange(0, 2).Draw(rt, "ghostPeer") == 0 {
+				a.Peers = append(a.Peers, "ghostpeer")
+			}
 		}
 		c.BGP = append(c.BGP, a)
 	}
@@ -260,7 +264,7 @@ func genSpkCase(rt *rapid.T) spkCase {
 	nops := rapid.IntRange(3, 25).Draw(rt, "nops")
 	for i := 0; i < nops; i++ {
 		op := spkOp{}
-		k := rapid.IntRange(0, 23).Draw(rt, "opK")
+		k := rapid.IntRange(0, 25).Draw(rt, "opK")
 		if live == 0 && k > 3 && k < 14 {
 			k = 0
 		}
@@ -322,6 +326,30 @@ func genSpkCase(rt *rapid.T) spkCase {
 			}
 			op.Cluster = &n
 			cur = n
+		case k == 22 || k == 23:
+			// the speaker's own node flips between label sets (peers and advertisements get selected / de-selected and back)
+			op.Kind = "node"
+			n := cur.Nodes[0]
+			n.Labels = rapid.SampledFrom([]map[string]string{nil, {"a": "x"}, {"a": "y"}, {"a": "x", "b": "y"}}).Draw(rt, "meLabels")
+			if rapid.IntRange(0, 3).Draw(rt, "meAvail") == 0 {
+				n.Unavailable = !n.Unavailable
+			}
+			op.Node = &n
+			cur.Nodes = append([]vw.NodeSpec(nil), cur.Nodes...)
+			cur.Nodes[0] = n
+		case k == 24:
+			// scenario: the node's labels flip away and back (a peer / advertisement is de-selected, then selected again)
+			l1 := rapid.SampledFrom([]map[string]string{{"a": "x"}, {"a": "y"}, {"a": "x", "b": "y"}}).Draw(rt, "flipA")
+			l2 := rapid.SampledFrom([]map[string]string{nil, {"a": "y"}, {"a": "x"}, {"b": "x"}}).Draw(rt, "flipB")
+			for _, l := range []map[string]string{l1, l2, l1} {
+				n := cur.Nodes[0]
+				n.Labels = l
+				nn := n
+				c.Ops = append(c.Ops, spkOp{Kind: "node", Node: &nn}, spkOp{Kind: "settle"})
+				cur.Nodes = append([]vw.NodeSpec(nil), cur.Nodes...)
+				cur.Nodes[0] = n
+			}
+			op.Kind = "settle"
 		case k == 18:
 			op.Kind = "members"
 			for range cur.Nodes {
@@ -981,4 +1009,15 @@ func TestVerifC09Spk(t *testing.T) {
 func TestVerifSpkWitness(t *testing.T) {
 	vw.RunWitnesses(t, vw.Options{Property: "C09", Engine: "speaker-witness", Rule: "committed witness histories of the known findings"}, "TestVerifC09Spk",
 		func(c spkCase, tr *vw.Trace) *vw.Violation { return runSpk(c, tr, false, true) })
+}
+
+// C10 and C12 on stateful speakers (the decisions must also hold after histories, not only as pure functions).
+func TestVerifC10Spk(t *testing.T) {
+	vw.Run(t, vw.Options{Property: "C10", Engine: "speaker", Rule: spkRule + "; at every quiescence routes for a service are present on the sessions iff the closed-form eligibility of the statement holds for this node; non-trivial as C05", Assumptions: spkAssumptions},
+		genSpkCase, func(c spkCase, tr *vw.Trace) *vw.Violation { return runSpk(c, tr, true, false) })
+}
+
+func TestVerifC12Spk(t *testing.T) {
+	vw.Run(t, vw.Options{Property: "C12", Engine: "speaker", Rule: spkRule + "; at every quiescence the layer-2 announcements of the speaker that lived through the history must equal those of freshly started speakers (the choice depends on the eligible nodes and the address only, not on what the speaker announced before); non-trivial = a withdraw-causing event happened", Assumptions: spkAssumptions},
+		genSpkCase, func(c spkCase, tr *vw.Trace) *vw.Violation { return runSpk(c, tr, false, true) })
 }
